@@ -94,6 +94,12 @@ def put(n: size, i: index, x: f32[n]):
     x[i] = 1.0
 
 @proc
+def alloc_m(m: size, o: f32[1]):
+    t: f32[m]
+    t[0] = 1.0
+    o[0] = t[0]
+
+@proc
 def put_last4(w: [f32][4]):
     w[3] = 1.0
 
@@ -248,6 +254,25 @@ def main({P}x: f32[{n}]):
     else:
         x[{a} - {n}] = 2.0
 '''),
+    _P("if_else_conjunction", "n:size a:index b:index", '''
+@proc
+def main({P}x: f32[{n}]):
+    if {a} < {n} and {b} < {n}:
+        x[{a}] = 1.0
+        x[{b}] += 1.0
+    else:
+        if {a} >= {n}:
+            x[{a} - {n}] = 2.0
+'''),
+    _P("if_else_disjunction", "n:size a:index b:index", '''
+@proc
+def main({P}x: f32[{n}]):
+    if {a} >= {n} or {b} >= {n}:
+        x[0] = 1.0
+    else:
+        x[{a}] = 2.0
+        x[{b}] += 2.0
+'''),
     _P("alloc", "n:size a:index b:index", '''
 @proc
 def main({P}o: f32[1]):
@@ -281,6 +306,11 @@ def main({P}y: f32[{k}]):
 @proc
 def main({P}y: f32[{k}]):
     put({k} - {b}, {a}, y[{b}:{k}])
+'''),
+    _P("call_size_minus_literal", "k:size", CALLEES + '''
+@proc
+def main({P}o: f32[1]):
+    alloc_m({k} - 1, o)
 '''),
     _P("call_window_expr", "k:size a:index b:index", CALLEES + '''
 @proc
